@@ -316,8 +316,7 @@ Proof.
                  (fun x => if is_pylist x then EV pf MOpt (PSeg es us sub sub2 :: rest) 1 x root_ctx
                            else match x with
                                 | RCoords nd par rf path anc =>
-                                    if is_pynone nd then gone x
-                                    else EV pf MOpt (PSeg es us sub sub2 :: rest) 1 nd (mkctx par rf true path anc)
+                                    EV pf MOpt (PSeg es us sub sub2 :: rest) 1 nd (mkctx par rf true path anc)
                                 | _ => gerr (PyCrash AttributeError)
                                 end))).
     { apply sres_gbind; [exact Hcg|].
